@@ -14,8 +14,8 @@ ASSUMPTIONS = [
     "only operator forms the classes define are generated (Expr has no __radd__/__rsub__, Literal/Term have no __sub__): a TypeError for an undefined form is not a semantic claim",
     "integer multipliers/constants only (the statement is about integer arithmetic); unary minus on a Literal is logical negation (1-x), on a Term arithmetic negation, as the classes define",
 ]
-CASES = {"quick": 30000, "thorough": 10000000}
-MIN_CASES = {"quick": 5000, "thorough": 100000}
+CASES = {"quick": 300000, "thorough": 10000000}
+MIN_CASES = {"quick": 60000, "thorough": 100000}
 REQUIRED_COUNTERS = ["expr_assignments_checked", "ineq_assignments_checked", "normal_form_checked", "shared_operands_rechecked"]
 VARS = ["a", "b", "c", "d", "e", "f", "g", "h"]
 OPS = [">=", "<=", ">", "<", "=="]
